@@ -115,11 +115,15 @@ PROPS = {
              assumptions=["model of traverse.rs tied to the code by the correspondence; line/column pairs are the library's own (C04 checks them)"]),
     "C17": P(["Model/Traverse.v", "Spec/Nodes.v", "Proofs/Names.v", "Properties/C17.v"], [],
              lambda rng, tier: gens.gen_projects(rng, tier, 400, 6000),
-             "hand-picked + random multi-file projects: every item kind x package depth x referencing position; names and qualified "
-             "names of every visited symbol (T lines), and for every reference resolved to an item the existence of a file whose item "
-             "symbol carries that key (V lines)",
+             "hand-picked + random multi-file projects (also with white space, line breaks and comments inside dotted names): every item "
+             "kind x package depth x referencing position; names and qualified names of every visited symbol (T lines), the item's and the "
+             "package's qualified name against the dotted names read off the text, and for every reference resolved to an item the "
+             "existence of a file whose item symbol carries that key (V lines)",
              runs=[("traverse", "T", ["spec_C17_names", "corr_C15"]), ("validate", "V", ["spec_C17_refs"])],
-             assumptions=["model of symbol.rs tied to the code by the correspondence"]),
+             x_checks=["itemq", "pkgq"], post=gens.post_C17,
+             assumptions=["model of symbol.rs tied to the code by the correspondence",
+                          "the dotted package name and 'package.Name' are read off the source text by lib/gens.expected_names (comments out, "
+                          "white space removed), independently of the library"]),
     "C11": P(["Proofs/Pipeline.v", "Proofs/Locality.v"] + MASTER + ["Properties/C11.v"], ["spec_C11_sorted", "corr_validate"],
              gens.gen_C11,
              "hand-picked (several diagnostics on one line, ambiguous imports, duplicate keys of different kinds, files without a "
